@@ -39,6 +39,7 @@ func init() {
 			{ID: "C04.R10", Text: "the tracked position follows what is settled: the function stored into ListenerContext.Ack calls the position writer exactly once on every path with dirty=true (Commit reaches Checkpoint.Save), every non-document listener arm and the reserved-key branch call it exactly once", Run: func(c *Ctx, id string) { ackMoves(c, id); absorbMoves(c, id) }},
 			{ID: "C04.R11", Text: "what the tracker is told is what the library tracks: NewStream wires the consumer, client and metadata it was given into the stream unchanged (no decorator between the position writer and Consumer.TrackOffset)", Run: constructorWiring(wireStream)},
 			{ID: "C04.R12", Text: "a closed session's positions are forgotten: Stream.Close unconditionally replaces the position map and the dirty marks by fresh maps after the streams were closed — nothing of a vBucket handed to another member can be written by a later save", Run: closeResets},
+			{ID: "C04.R13", Text: "the position gauge is the tracked position: the descriptor is paired with the ranged offset's own SeqNo, uncapped (same rule as C16.R1)", Run: c16r1},
 			{ID: "C04.R4", Text: "the position map has no other writer (same rule as C01.R1)", Run: c01r1},
 		},
 	})
